@@ -139,6 +139,10 @@ pub fn c11() -> Simple {
 // ------------------------------------------------------------------------------------------
 // C18
 
+pub fn gen_c18_plan(r: &mut Rng, t: Tier, job: u64) -> Plan {
+    gen_c18(r, t, job)
+}
+
 fn gen_c18(r: &mut Rng, _t: Tier, job: u64) -> Plan {
     let ncmds = r.usize_below(9);
     let cmds = small_conv(r, ncmds);
